@@ -180,7 +180,11 @@ def build_v1(spec):
         co += 'define user ask something\n  "something"\n\ndefine user ask fixed\n  "fixedq"\n\n'
         co += 'define bot answer fixed\n  "FIXED-ANSWER"\n\n'
         if spec.get("dialog_action"):
-            co += "define flow\n  user ask something\n  $info = execute lookup\n  bot answer something\n\n"
+            # (the action also gets the current user text through a `$variable` parameter written in the flow)
+            # (an intent of its own: in Colang 1.0 the word `something` in `user ask something` is a wildcard (`ask ...`), such a flow
+            #  is never entered after the LLM named the intent `ask something` - the next step then comes from the LLM)
+            co += 'define user ask cheese\n  "cheese"\n\n'
+            co += "define flow\n  user ask cheese\n  $info = execute lookup(q=$user_message)\n  bot answer cheese\n\n"
         else:
             co += "define flow\n  user ask something\n  bot answer something\n\n"
         co += "define flow\n  user ask fixed\n  bot answer fixed\n\n"
@@ -265,7 +269,7 @@ class App:
             for i in range(m):
                 self.app.register_action(with_signature(self._mk_v1("out", i), sig, "v1"), "vout%d" % i)
             if spec.get("dialog_action"):
-                self.app.register_action(with_signature(self._mk_lookup(), sig, "v1"), "lookup")
+                self.app.register_action(self._mk_lookup(), "lookup")
         else:
             for i in range(k):
                 self.app.register_action(with_signature(self._mk_v2("in", i), sig, "v2"), "Vin%dAction" % i)
@@ -286,7 +290,7 @@ class App:
         if mode in ("dialog", "multi_step"):
             tail = prompt.rstrip().split("\n")[-1]
             if tail.startswith('user "'):
-                return "  ask fixed" if "fixedq" in tail else "  ask something"
+                return "  ask fixed" if "fixedq" in tail else ("  ask cheese" if self.spec.get("dialog_action") else "  ask something")
             if tail.strip() in ("ask something", "ask fixed", "user ask something", "user ask fixed") or tail.startswith("  ask"):
                 if mode == "multi_step" and "fixed" not in tail:
                     # the generated flow carries the message text inline; it is LLM text like any other
@@ -339,8 +343,8 @@ class App:
         return f
 
     def _mk_lookup(self):
-        async def lookup(context: Optional[dict] = None):
-            self.log.add("dialog_action", text=(context or {}).get("user_message"))
+        async def lookup(context: Optional[dict] = None, q=None):
+            self.log.add("dialog_action", text=(context or {}).get("user_message"), q=q)
             self._tick_fault("dialog", 0)
             return "INFO"
 
